@@ -23,6 +23,7 @@ func propC06() *Property {
 			{ID: "R06.3", Floor: 3, Text: "the failure branch after readOneSegment (stream) and the packet read loop call nothing that may write to the connection", Run: r05_5},
 			{ID: "R06.4", Floor: 2, Text: "replay.NewCache(capacity, interval): capacity > 0 and interval >= (timestamp margin + 1) minutes", Run: r06_4},
 			{ID: "R06.5", Floor: 4, Text: "every IsDuplicate call passes buffer[:cipher.DefaultOverhead] of a buffer filled from the network in the same function", Run: r06_5},
+			{ID: "R06.7", Floor: 1, Text: "every demotion of the current generation to previous restarts the expiry clock before the method returns", Run: r06_7},
 			{ID: "R06.6", Floor: 4, Text: "ReplayCache: every access to a non-constant field in a method happens with mu held; fields read outside the lock are never stored after NewCache and are not reference-typed", Run: r06_6},
 		},
 	}
@@ -418,6 +419,20 @@ func r06_6(c *RC) {
 				}
 				key := "access:" + f.Name() + "@" + fnName(fn)
 				held := lockHeldAt(fn, in, mu)
+				if !held && !fn.Object().Exported() {
+					// an unexported helper that is only ever called with mu held
+					sites := p.CallsToFn(fn)
+					all := len(sites) > 0
+					for _, cs := range sites {
+						if !lockHeldAt(cs.Fn, cs.Instr, mu) {
+							all = false
+						}
+					}
+					if all {
+						c.OKH(key, in.Pos(), "helper called only with mu held (%d call sites)", len(sites))
+						return
+					}
+				}
 				switch {
 				case held:
 					c.OKH(key, in.Pos(), "accessed with mu held")
@@ -469,4 +484,82 @@ func filledFromNetwork(v ssa.Value) bool {
 		}
 	}
 	return false
+}
+
+
+// r06_7: the two-generation cache keeps an entry for at least one interval
+// only if every rotation (previous = current) restarts the expiry clock:
+// otherwise the next time-driven rotation, which may be due at once, throws
+// away the generation that was demoted a moment ago, and a datagram recorded
+// well inside the validity window is accepted again (seed C06c).
+func r06_7(c *RC) {
+	p := c.P
+	cur := p.Field("pkg/replay", "ReplayCache", "current")
+	prev := p.Field("pkg/replay", "ReplayCache", "previous")
+	exp := p.Field("pkg/replay", "ReplayCache", "expireTime")
+	if cur == nil || prev == nil || exp == nil {
+		c.Anchor("ReplayCache.current/previous/expireTime")
+		return
+	}
+	isRotationStore := func(in ssa.Instruction) bool {
+		st, ok := in.(*ssa.Store)
+		if !ok {
+			return false
+		}
+		if f, _ := fieldOfAddr(st.Addr); !sameField(f, prev) {
+			return false
+		}
+		return sameField(fieldOrigin(st.Val), cur)
+	}
+	isReset := func(in ssa.Instruction) bool {
+		st, ok := in.(*ssa.Store)
+		if !ok {
+			return false
+		}
+		f, _ := fieldOfAddr(st.Addr)
+		return sameField(f, exp)
+	}
+	// helpers that rotate without resetting
+	rotates := map[*ssa.Function]bool{}
+	for _, fn := range p.Funcs("pkg/replay") {
+		instrs(fn, func(_ *ssa.BasicBlock, _ int, in ssa.Instruction) {
+			if isRotationStore(in) {
+				rotates[fn] = true
+			}
+		})
+	}
+	n := 0
+	for _, fn := range p.Funcs("pkg/replay") {
+		instrs(fn, func(_ *ssa.BasicBlock, _ int, in ssa.Instruction) {
+			site := isRotationStore(in)
+			via := ""
+			if cl, ok := in.(*ssa.Call); ok {
+				if sc := cl.Call.StaticCallee(); sc != nil && rotates[sc] && sc != fn {
+					site = true
+					via = " (through " + fnName(sc) + ")"
+				}
+			}
+			if !site {
+				return
+			}
+			// a helper whose callers are all judged instead
+			if via == "" && !fn.Object().Exported() && len(p.CallsToFn(fn)) > 0 {
+				hit := reachableAvoiding(fn, in, isReturn, isReset)
+				if hit != nil {
+					c.OK("rotation-in-helper@"+fnName(fn), in.Pos(), "rotation inside a helper; judged at its %d call sites", len(p.CallsToFn(fn)))
+					return
+				}
+			}
+			n++
+			key := "rotation-restarts-clock@" + fnName(fn)
+			if hit := reachableAvoiding(fn, in, isReturn, isReset); hit == nil {
+				c.OKH(key, in.Pos(), "previous = current%s is followed by expireTime = now + interval on every path", via)
+			} else {
+				c.Bad(key, in.Pos(), "a rotation%s can leave expireTime unchanged (path to %s): the time-driven rotation that follows discards the generation just demoted, so an entry recorded less than one interval ago is forgotten and its replay is accepted", via, p.Pos(hit.Pos()))
+			}
+		})
+	}
+	if n == 0 {
+		c.Undecided("rotation-restarts-clock", token.NoPos, "no rotation (previous = current) found in pkg/replay")
+	}
 }
